@@ -4,6 +4,8 @@
 # usage: tools/selftest.sh [pattern]
 cd /verif || exit 2
 ./setup.sh >/dev/null || exit 2
+# evidence files are rewritten by every check run: keep the ones of the unchanged tree
+rm -rf /tmp/evidence.keep.$$; cp -r /verif/evidence /tmp/evidence.keep.$$; trap 'rm -rf /verif/evidence; mv /tmp/evidence.keep.'$$' /verif/evidence; rm -rf /verif/replays/*' EXIT
 if [ -n "$(git -C /repo status --porcelain)" ]; then echo "refusing to run: /repo has uncommitted changes (this script reverts the working tree)"; exit 2; fi
 fail=0
 for d in selftest/mutants/${1:-*}.diff; do
